@@ -101,5 +101,36 @@ def check_formats_agree():
     return obs
 
 
+# nested written attributes the fixup visitor of the class does not mention, each with the reason
+FIXUP_EXEMPT = {
+    ("MypyFile", "names"): "fixup of a module starts at its symbol table: State.fix_cross_refs calls NodeFixer.visit_symbol_table(tree.names) directly",
+    ("FuncDef", "dataclass_transform_spec"): "plain data (booleans and names), no cross reference inside",
+    ("TypeInfo", "dataclass_transform_spec"): "plain data (booleans and names), no cross reference inside",
+    ("SymbolTableNode", "node"): "visited by NodeFixer.visit_symbol_table for every entry (through SymbolTableNode.node / accept)",
+    ("AnyType", "source_any"): "an AnyType holds no cross reference",
+    ("ExtraAttrs", "attrs"): "visited by TypeFixer.visit_instance through inst.extra_attrs.attrs",
+}
+
+
+def check_fixup_cover():
+    from frames import fixupcover
+
+    rows = fixupcover.scan()
+    if len(rows) < 40:
+        return [{"name": "fixup-cover/scan", "status": "unknown", "where": f"only {len(rows)} nested written attributes found: layout changed?"}]
+    obs = []
+    for cls, vm, attr, reached in rows:
+        if reached:
+            obs.append({"name": f"fixup-cover/{cls}.{attr}", "status": "discharged", "where": f"mypy/fixup.py {vm}"})
+        elif (cls, attr) in FIXUP_EXEMPT:
+            obs.append({"name": f"fixup-cover/exempt/{cls}.{attr}", "status": "discharged", "where": f"{vm}", "detail": FIXUP_EXEMPT[(cls, attr)]})
+        else:
+            obs.append({"name": f"fixup-cover/{cls}.{attr}", "status": "refuted", "where": f"mypy/fixup.py {vm or '(no visitor method found)'}",
+                        "detail": f"{cls}.write serializes the nested {attr} but the fixup visitor never touches it: cross references inside stay unresolved after loading",
+                        "key": f"fixup-cover:{cls}.{attr}", "confirmed": True})
+    return obs
+
+
 def targets(tier):
-    return [StaticCheck("codec.static.tags", check_tags), StaticCheck("codec.static.dispatch", check_dispatch), StaticCheck("codec.static.formats_agree", check_formats_agree)]
+    return [StaticCheck("codec.static.tags", check_tags), StaticCheck("codec.static.dispatch", check_dispatch), StaticCheck("codec.static.formats_agree", check_formats_agree),
+            StaticCheck("codec.static.fixup_cover", check_fixup_cover, note="every nested type / node a writer serializes is mentioned by the fixup visitor method of its class (syntactic)")]
